@@ -127,8 +127,10 @@ def run(repo):
                 if 'inf' in idx_txt:
                     continue          # re-coding of infinite bounds, not a decision about user bounds
                 nstores += 1
-                depends = any(isinstance(x, ast.Name) and x.id == nm for x in ast.walk(n.value)) or \
-                    any(isinstance(x, ast.Attribute) and x.attr == bound_names[nm] for x in ast.walk(n.value))
+                from .common import expand_locals as _xl
+                val_x = _xl(fi.node, n.value)          # a hoisted old value (cur = ub[mask]) is the old value
+                depends = any(isinstance(x, ast.Name) and x.id == nm for x in ast.walk(val_x)) or \
+                    any(isinstance(x, ast.Attribute) and x.attr == bound_names[nm] for x in ast.walk(val_x))
                 res.inst({'interface': fi.fq, 'bound_store': ntext(n)[:70], 'uses_old_bound': depends}, depends)
                 if not depends:
                     res.fail(Finding(RULE, fi.fq, 'bound overwrite: ' + ntext(n)[:60],
@@ -296,6 +298,32 @@ def _index_var(expr, binds, depth=0):
     return idx
 
 
+def _coef_sign(block):
+    """sign of the constant coefficient vector inside a selector matrix constructor:
+    -np.ones(n) / np.ones(n) / np.full(n, c) / c * np.ones(n) / [c] * n"""
+    from .common import const_num
+    for x in ast.walk(block):
+        if isinstance(x, ast.UnaryOp) and isinstance(x.op, ast.USub) and isinstance(x.operand, ast.Call) and \
+                call_name(x.operand) in ('np.ones', 'numpy.ones'):
+            return -1
+    for x in ast.walk(block):
+        if isinstance(x, ast.Call) and call_name(x) in ('np.full', 'numpy.full') and len(x.args) >= 2:
+            k = const_num(x.args[1])
+            if k:
+                return 1 if k > 0 else -1
+        if isinstance(x, ast.BinOp) and isinstance(x.op, ast.Mult):
+            for a, b_ in ((x.left, x.right), (x.right, x.left)):
+                k = const_num(a)
+                if k and isinstance(b_, ast.Call) and call_name(b_) in ('np.ones', 'numpy.ones'):
+                    return 1 if k > 0 else -1
+                if k is None and isinstance(a, ast.List) and len(a.elts) == 1 and const_num(a.elts[0]):
+                    return 1 if const_num(a.elts[0]) > 0 else -1
+    for x in ast.walk(block):
+        if isinstance(x, ast.Call) and call_name(x) in ('np.ones', 'numpy.ones'):
+            return 1
+    return None
+
+
 def _ecos_blocks(repo, res):
     fi = repo.func('eco_solver.solve')
     from .common import single_defs, expand_locals
@@ -319,6 +347,9 @@ def _ecos_blocks(repo, res):
                 out.append(x.args[0].id)
             elif isinstance(x, ast.Attribute) and x.attr == 'size' and isinstance(x.value, ast.Name):
                 out.append(x.value.id)
+            elif isinstance(x, ast.Subscript) and isinstance(x.value, ast.Attribute) and x.value.attr == 'shape' and \
+                    isinstance(x.value.value, ast.Name) and isinstance(x.slice, ast.Constant) and x.slice.value == 0:
+                out.append(x.value.value.id)        # idx.shape[0] of a 1-d index array
         return out
     if 'G' not in binds or 'h' not in binds or 'dims' not in binds:
         raise AnalysisError('eco_solver.solve: G / h / dims not found')
@@ -346,9 +377,9 @@ def _ecos_blocks(repo, res):
                          'wrong rows' % (gblocks, g_idx, h_idx), repo.where(fi), PROPS))
     # cone blocks have zero rhs
     cone_rhs = h_elts[len(gblocks):]
-    ok = len(cone_rhs) == len(tail) and all(call_name(e) in ('np.zeros', 'numpy.zeros')
-                                             for e in cone_rhs if isinstance(e, ast.Call)) \
-        and all(isinstance(e, ast.Call) for e in cone_rhs)
+    # every right-hand side block after the linear ones is a zero vector (one per cone kind, or merged)
+    ok = bool(cone_rhs) == bool(tail) and all(isinstance(e, ast.Call) and
+                                               call_name(e) in ('np.zeros', 'numpy.zeros') for e in cone_rhs)
     res.inst({'ecos': 'cone rhs zero', 'cone_blocks': tail, 'rhs': [ntext(e)[:30] for e in cone_rhs]}, ok)
     if not ok:
         res.fail(Finding(RULE, fi.fq, 'ECOS cone rhs', 'cone blocks %s must be paired with zero '
@@ -365,8 +396,11 @@ def _ecos_blocks(repo, res):
     sign_ok = True
     detail = []
     for b, e in zip(gblocks[1:], h_elts[1:len(gblocks)]):
-        coef_neg = any(isinstance(x, ast.UnaryOp) and isinstance(x.op, ast.USub)
-                       and 'ones' in ntext(x.operand) for x in ast.walk(ex(binds[b])))
+        sg = _coef_sign(ex(binds[b]))
+        if sg is None:
+            raise AnalysisError('eco_solver.solve: sign of the coefficients of block %s (`%s`) not recognised'
+                                % (b, ntext(binds[b])[:50]))
+        coef_neg = sg < 0
         rhs_neg = isinstance(e, ast.UnaryOp) and isinstance(e.op, ast.USub)
         which = 'lb' if '.lb' in ntext(e) else 'ub' if '.ub' in ntext(e) else '?'
         detail.append((b, 'c<0' if coef_neg else 'c>0', 'k<0' if rhs_neg else 'k>0', which))
